@@ -119,7 +119,13 @@ Quiesce ==
             \cup (IF meta.filter /\ AllOk /\ \E u \in 1..N : applied[u] = 0 THEN {"C10_WithheldAcceptedCommand"} ELSE {}))
   /\ UNCHANGED <<meta, conns, applied, lastResume, crashes>>
 
-Next == Reset \/ Req \/ Crash \/ Resume \/ Quiesce \/ Return
+\* a full resynchronisation completed: the units up to the snapshot's offset are on the target as part of the snapshot
+SnapshotApplied ==
+  /\ IsEvent("SnapshotApplied")
+  /\ applied' = [u \in 1..N |-> IF Units[u].e <= Trace[l].off /\ applied[u] = 0 THEN 1 ELSE applied[u]]
+  /\ UNCHANGED <<meta, conns, lastResume, crashes>>
+
+Next == Reset \/ Req \/ Crash \/ Resume \/ Quiesce \/ Return \/ SnapshotApplied
 Spec == Init /\ [][Next]_vars
 TraceAccepted ==
   LET d == TLCGet("stats").diameter IN
